@@ -23,6 +23,8 @@ pub static DEF: PropDef = PropDef {
         "control changes hands only at the H2 scheduling points (context lock, fresh variable name, precomputed-type access, node / incomplete-type drop loop, Bit Machine step, before and after each C jet call), at thread start and at thread end; context-lock, name and precomputed points are thinned to every 8th per thread to keep the schedule space finite",
         "2 threads (3 for the triples) on real OS threads: thread-local type tables, Arc reference counts, the C allocator shims and the C jets are the real ones; preemptions inside C code and weak-memory effects are not explored",
         "every tenth schedule is replayed in full and must reproduce the identical trace (determinism audit)",
+        "complement 1 (leg c-races, timing-independent but only for executed paths): 2 unmanaged threads run every Elements jet on its corner inputs under valgrind/helgrind; only reports with a libsimplicity C frame count, because Rust's futex-based locks are invisible to helgrind",
+        "complement 2 (leg cold-start) is SAMPLED, not exhaustive: a fresh process per trial, 8 unmanaged threads behind a spin barrier before each first use of lazily built tables; its trials are counted in evaluations/transitions only, never in states; a difference from the single-threaded fresh process is a true violation, silence is weak evidence",
     ],
     shards: (64, 128),
     budget_ms: (300_000, 900_000),
